@@ -135,11 +135,15 @@ def _chunk(args):
     return {"recs": out}
 
 
-def write_replay(prop, case, v, digest):
+def write_replay(prop, case, v, digest, intermittent=False):
     os.makedirs(REPLAYS, exist_ok=True)
     name = "%s-%s-%s.json" % (prop, case.get("verif_seed", 0), case.get("run_index", 0))
     path = os.path.join(REPLAYS, name)
     doc = dict(case)
+    if intermittent:
+        # the simulator is deterministic (self-test), so a violation that recurs only in some re-executions of the same
+        # case means the SYSTEM UNDER TEST is not a function of its inputs (e.g. it reads process-global random state)
+        doc["intermittent"] = True
     doc["violation"] = {"class": v["cls"], "oracle": v["oracle"], "step": v["step"], "sig": v["sig"],
                         "detail": v["detail"], "lp": v["lp"], "np": v["np"]}
     doc["digest"] = digest
@@ -149,19 +153,24 @@ def write_replay(prop, case, v, digest):
     return path
 
 
-def minimise(mod, case, cls, max_exec=400):
+def minimise(mod, case, cls, max_exec=400, tries=1):
     def fails(c):
-        try:
-            r = exec_case(mod, c)
-        except Exception:
-            return False
-        return any(v["cls"] == cls for v in r["violations"])
+        for _ in range(tries):
+            try:
+                r = exec_case(mod, c)
+            except Exception:
+                return False
+            if any(v["cls"] == cls for v in r["violations"]):
+                return True
+        return False
     small, used = shrink.shrink(case, fails, mod, max_exec)
-    r = exec_case(mod, small)
-    v = next((v for v in r["violations"] if v["cls"] == cls), None)
-    if v is None:   # cannot happen: shrink only accepts failing candidates
-        raise kernel.HarnessError("minimised case no longer fails")
-    return small, v, r["digest"], used
+    for _ in range(max(1, tries * 3)):
+        r = exec_case(mod, small)
+        v = next((v for v in r["violations"] if v["cls"] == cls), None)
+        if v is not None:
+            return small, v, r["digest"], used
+    # with tries == 1 this cannot happen for a deterministic system under test: shrink only accepts failing candidates
+    raise kernel.HarnessError("minimised case no longer fails")
 
 
 def replay_fresh(path):
@@ -176,10 +185,24 @@ def replay(path):
     doc = json.load(open(path))
     prop = doc["property"]
     mod = load_mod(prop)
-    res = exec_case(mod, doc)
     want = doc["violation"]["class"]
     known = load_known()
-    hit = next((v for v in res["violations"] if v["cls"] == want), None)
+    attempts = 12 if doc.get("intermittent") else 1
+    for attempt in range(attempts):
+        res = exec_case(mod, doc)
+        hit = next((v for v in res["violations"] if v["cls"] == want), None)
+        if hit is not None:
+            break
+    if doc.get("intermittent") and hit is not None:
+        print("intermittent violation (the system under test is not deterministic for this case): class reproduced "
+              "at re-execution %d of at most %d; digests are not comparable" % (attempt + 1, attempts))
+        k = match_known(prop, hit, known)
+        if k is not None:
+            print("KNOWN-FINDING: property=%s %s (%s)" % (prop, k["what_fails"], k["id"]))
+            return 0
+        print("detail:", json.dumps(hit["detail"])[:2000])
+        print("VIOLATION property=%s replay=%s" % (prop, path))
+        return 1
     if hit is None:
         print("REPLAY-MISMATCH property=%s expected class %s, got %s" % (prop, want,
                                                                         [v["cls"] for v in res["violations"]]))
@@ -268,14 +291,25 @@ def run_property(prop, tier, verif_seed, budget_s=None, n_runs=None, workers=Non
     reported = []
     for cls, (r, v) in sorted(by_class.items()):
         try:
-            small, v2, dig, used = minimise(mod, r["case"], cls, getattr(mod, "SHRINK_EXEC", 300))
-            path = write_replay(prop, small, v2, dig)
+            intermittent = False
+            try:
+                small, v2, dig, used = minimise(mod, r["case"], cls, getattr(mod, "SHRINK_EXEC", 300))
+            except kernel.HarnessError:
+                # does it recur at all? (see write_replay: intermittent = nondeterministic system under test)
+                small, v2, dig, used = minimise(mod, r["case"], cls, getattr(mod, "SHRINK_EXEC", 300), tries=4)
+                intermittent = True
+            path = write_replay(prop, small, v2, dig, intermittent)
             rc, out = replay_fresh(path)
+            if rc != 1 and not intermittent:
+                # deterministic in this process but not in a fresh one: same conclusion, report as intermittent
+                path = write_replay(prop, small, v2, dig, True)
+                rc, out = replay_fresh(path)
+                intermittent = rc == 1
             if rc != 1:
                 harness_errors.append("violation %s does not replay in a fresh interpreter (rc=%s): %s"
                                       % (cls, rc, out[-1500:]))
                 continue
-            reported.append((cls, path, used, v2))
+            reported.append((cls + (" [intermittent]" if intermittent else ""), path, used, v2))
         except Exception:
             harness_errors.append("minimise/replay failed for %s: %s" % (cls, traceback.format_exc()))
 
